@@ -330,4 +330,303 @@ theorem VarInv.history_noreloc {v : Vec} {es : List Elem} (h : VarInv v es) (jun
     apply ih (h.step_noreloc junk op hv.1 hv.2.1)
     rw [hps]; exact hv.2.2
 
+/-! ### element-wise relocation on the stride locator (non-trivial value types)
+
+Every element is relocated by a whole number of strides towards the front, so source and target never overlap and every
+target slot was vacated before (erased or relocated earlier): the canonical picture is kept, nothing live is clobbered. -/
+
+/-- the records while the relocation loop runs: the first `i + k` elements sit in their final slots, the others still
+    `d` slots further back -/
+def relocRec (ps : List Param) (stride : Nat) (new : List Elem) (i d k : Nat) (q : Nat) : Rec :=
+  ⟨stride * (if q < i + k then q else q + d), esz ps (new.getD q []), new.getD q []⟩
+
+theorem relocRec_ordered (ps : List Param) (stride : Nat) (new : List Elem) (i d k : Nat)
+    (hok : ElemsOK ps new) (hfit : ∀ e ∈ new, esz ps e ≤ stride) : Ordered new.length (relocRec ps stride new i d k) := by
+  have hm : ∀ q, q < new.length → new.getD q [] ∈ new := by
+    intro q hq
+    rw [List.getD_eq_getElem?_getD, List.getElem?_eq_getElem hq]; exact List.getElem_mem hq
+  constructor
+  · intro q hq; exact (hok _ (hm q hq)).2
+  · intro q hq
+    simp only [relocRec]
+    have h1 := hfit _ (hm q (by omega))
+    have h2 : stride * (if q < i + k then q else q + d) + stride ≤ stride * (if q + 1 < i + k then q + 1 else q + 1 + d) := by
+      rw [← Nat.mul_succ]; apply Nat.mul_le_mul_left
+      split <;> split <;> omega
+    omega
+
+theorem relocate_fold_fix (v : Vec) (hl : ListOK v.ps) (hf : v.fixedLoc = true) (hdvd : storageAl v.ps ∣ v.loc.stride)
+    (new : List Elem) (hok : ElemsOK v.ps new) (hfit : ∀ e ∈ new, esz v.ps e ≤ v.loc.stride) (i d : Nat) (hd : 0 < d) :
+    ∀ (cnt k : Nat) (w : Vec), i + k + cnt ≤ new.length → w.ps = v.ps → w.loc = v.loc → w.poison = false →
+      Holds w.mem new.length (relocRec v.ps v.loc.stride new i d k) →
+      ((List.range' k cnt).foldl (fun (w : Vec) q => w.relocateOne (i + q) (i + d + q)) w).ps = v.ps ∧
+      ((List.range' k cnt).foldl (fun (w : Vec) q => w.relocateOne (i + q) (i + d + q)) w).loc = v.loc ∧
+      ((List.range' k cnt).foldl (fun (w : Vec) q => w.relocateOne (i + q) (i + d + q)) w).poison = false ∧
+      Holds ((List.range' k cnt).foldl (fun (w : Vec) q => w.relocateOne (i + q) (i + d + q)) w).mem new.length
+        (relocRec v.ps v.loc.stride new i d (k + cnt)) := by
+  intro cnt
+  induction cnt with
+  | zero => intro k w _ hps hloc hpo hh; exact ⟨hps, hloc, hpo, hh⟩
+  | succ cnt ih =>
+    intro k w hlen hps hloc hpo hh
+    simp only [List.range'_succ, List.foldl_cons]
+    have hord := relocRec_ordered v.ps v.loc.stride new i d k hok hfit
+    have hc : i + k < new.length := by omega
+    have hmem : new.getD (i + k) [] ∈ new := by
+      rw [List.getD_eq_getElem?_getD, List.getElem?_eq_getElem hc]; exact List.getElem_mem hc
+    have hsz := hfit _ hmem
+    have heok := (hok _ hmem).1
+    have hfw : w.fixedLoc = true := by unfold Vec.fixedLoc; rw [hps]; exact hf
+    -- the source record and the target slot
+    have hsrc : (relocRec v.ps v.loc.stride new i d k (i + k)).off = v.loc.stride * (i + d + k) := by
+      simp only [relocRec, Nat.lt_irrefl, if_false]; congr 1; omega
+    have hrel := relocate_holds hh hord (i + k) hc (v.loc.stride * (i + k))
+      (by
+        intro q hq
+        simp only [relocRec, hq, if_true]
+        have hq' : q < new.length := by omega
+        have hmq : new.getD q [] ∈ new := by
+          rw [List.getD_eq_getElem?_getD, List.getElem?_eq_getElem hq']; exact List.getElem_mem hq'
+        have := hfit _ hmq
+        have h2 : v.loc.stride * q + v.loc.stride ≤ v.loc.stride * (i + k) := by
+          rw [← Nat.mul_succ]; exact Nat.mul_le_mul_left _ hq
+        omega)
+      (by
+        intro q hq hqn
+        have hnq : ¬ q < i + k := by omega
+        simp only [relocRec, hnq, if_false, Nat.lt_irrefl]
+        have h2 : v.loc.stride * (i + k) + v.loc.stride ≤ v.loc.stride * (q + d) := by
+          rw [← Nat.mul_succ]; apply Nat.mul_le_mul_left; omega
+        omega)
+    obtain ⟨hfind, hhit, hholds⟩ := hrel
+    rw [hsrc] at hfind hhit hholds
+    -- unfold one relocation step
+    have hstep : w.relocateOne (i + k) (i + d + k) =
+        { w with mem := (w.mem.drop (v.loc.stride * (i + d + k))).write (v.loc.stride * (i + k))
+                          (relocRec v.ps v.loc.stride new i d k (i + k)).sz (relocRec v.ps v.loc.stride new i d k (i + k)).e } := by
+      have haddr1 : w.addr (i + d + k) = v.loc.stride * (i + d + k) := by simp [Vec.addr, hfw, hloc]
+      have haddr2 : w.addr (i + k) = v.loc.stride * (i + k) := by simp [Vec.addr, hfw, hloc]
+      have hd2 : storageAl v.ps ∣ v.loc.stride * (i + k) := Nat.dvd_trans hdvd (Nat.dvd_mul_right _ _)
+      have hfin : placeEnd w.ps (elemCounts (relocRec v.ps v.loc.stride new i d k (i + k)).e) (v.loc.stride * (i + k)) =
+          v.loc.stride * (i + k) + (relocRec v.ps v.loc.stride new i d k (i + k)).sz := by
+        rw [hps]; exact placeEnd_aligned hl _ heok _ hd2
+      have hge : v.loc.stride * (i + k) + v.loc.stride ≤ v.loc.stride * (i + d + k) := by
+        rw [← Nat.mul_succ]; apply Nat.mul_le_mul_left; omega
+      have hszr : (relocRec v.ps v.loc.stride new i d k (i + k)).sz ≤ v.loc.stride := hsz
+      unfold Vec.relocateOne
+      simp only [haddr1, haddr2, hfind, hfin, hfw, if_true, Nat.add_sub_cancel_left, hhit, hpo, Bool.or_false]
+      have hov : (decide (v.loc.stride * (i + k) < v.loc.stride * (i + d + k) + (relocRec v.ps v.loc.stride new i d k (i + k)).sz) &&
+          decide (v.loc.stride * (i + d + k) < v.loc.stride * (i + k) + (relocRec v.ps v.loc.stride new i d k (i + k)).sz)) = false := by
+        simp only [Bool.and_eq_false_iff, decide_eq_false_iff_not]; right; omega
+      rw [hov]; simp [hpo]
+    rw [hstep]
+    have hfam : ∀ q, q < new.length →
+        (if q = i + k then (⟨v.loc.stride * (i + k), (relocRec v.ps v.loc.stride new i d k (i + k)).sz,
+            (relocRec v.ps v.loc.stride new i d k (i + k)).e⟩ : Rec) else relocRec v.ps v.loc.stride new i d k q) =
+          relocRec v.ps v.loc.stride new i d (k + 1) q := by
+      intro q _
+      by_cases hq : q = i + k
+      · subst hq
+        have h1 : i + k < i + (k + 1) := by omega
+        simp only [if_true, relocRec, h1]
+      · simp only [hq, if_false, relocRec]
+        by_cases h1 : q < i + k
+        · have h2 : q < i + (k + 1) := by omega
+          simp only [h1, h2, if_true]
+        · have h2 : ¬ q < i + (k + 1) := by omega
+          simp only [h1, h2, if_false]
+    have hnext := ih (k + 1)
+      { w with mem := (w.mem.drop (v.loc.stride * (i + d + k))).write (v.loc.stride * (i + k))
+                          (relocRec v.ps v.loc.stride new i d k (i + k)).sz (relocRec v.ps v.loc.stride new i d k (i + k)).e }
+      (by omega) hps hloc hpo (hholds.congr hfam)
+    rw [show k + 1 + cnt = k + (cnt + 1) by omega] at hnext
+    exact hnext
+
+/-- `moveForward` never changes the stride of the stride locator -/
+theorem C16aux_moveForward_loc (v : Vec) (src dst : Nat) (hf : v.fixedLoc = true) :
+    (v.moveForward src dst).loc.stride = v.loc.stride := by
+  have hf' : isFixedOrPlain v.ps = true := hf
+  unfold Vec.moveForward
+  split
+  · simp only [Vec.moveForwardTrivial, Vec.fixedLoc, hf', Bool.not_true, Bool.false_and, Bool.false_eq_true, if_false, if_true]
+  · simp only [Vec.moveForwardElementwise]
+    generalize List.range _ = l
+    suffices hh : ∀ (w : Vec), (l.foldl (fun (w : Vec) k => w.relocateOne (dst + k) (src + k)) w).loc.stride = w.loc.stride from hh v
+    induction l with
+    | nil => intro w; rfl
+    | cons k ks ih =>
+      intro w; simp only [List.foldl_cons]; rw [ih]
+      simp only [Vec.relocateOne]
+      split
+      · rfl
+      · simp only; split <;> rfl
+
+theorem eraseRange_fix_elementwise (v : Vec) (i j : Nat) (hf : v.fixedLoc = true) (ht : v.trivialReloc = false)
+    (hij : i < j) (hjn : j < v.loc.count) :
+    v.eraseRange i j =
+      { ((List.range (v.loc.count - j)).foldl (fun (w : Vec) k => w.relocateOne (i + k) (j + k)) { v with mem := v.destructRange i j }) with
+        loc := (((List.range (v.loc.count - j)).foldl (fun (w : Vec) k => w.relocateOne (i + k) (j + k)) { v with mem := v.destructRange i j }).loc.resize
+          ((List.range (v.loc.count - j)).foldl (fun (w : Vec) k => w.relocateOne (i + k) (j + k)) { v with mem := v.destructRange i j }).fixedLoc
+          (v.loc.count - (j - i))) } := by
+  have hne : i ≠ j := by omega
+  have hf' : isFixedOrPlain v.ps = true := hf
+  have ht' : (v.ps.all fun p => p.ty.trivMoveCtor && p.ty.trivDtor) = false := ht
+  have hsz : v.size = v.loc.count := by simp [Vec.size, hf]
+  have hsz1 : ({ v with mem := v.destructRange i j } : Vec).size = v.loc.count := hsz
+  simp only [Vec.eraseRange, hsz, hjn, hne, ne_eq, not_false_eq_true, and_self, if_true, Vec.moveForward, Vec.trivialReloc, ht',
+    Bool.false_eq_true, if_false, Vec.moveForwardElementwise, hsz1]
+
+/-- **erase(first, last) on the stride locator, element-wise path**: same refinement as on the memmove path, and no live
+    object is ever clobbered -/
+theorem FixInv.eraseRange_elementwise {v : Vec} (A M B : List Elem) (h : FixInv v (A ++ M ++ B)) (hnt : v.trivialReloc = false)
+    (hB : B ≠ []) (hM : M ≠ []) : FixInv (v.eraseRange A.length (A.length + M.length)) (A ++ B) := by
+  have hlen : (A ++ M ++ B).length = A.length + M.length + B.length := by simp only [List.length_append]
+  have hcnt : v.loc.count = A.length + M.length + B.length := by rw [h.count_eq, hlen]
+  have hBl : 0 < B.length := List.length_pos_iff.mpr hB
+  have hMl : 0 < M.length := List.length_pos_iff.mpr hM
+  have hsub : ∀ x ∈ A ++ B, x ∈ A ++ M ++ B := by
+    intro x hx
+    rcases List.mem_append.mp hx with hx | hx
+    · exact List.mem_append_left _ (List.mem_append_left _ hx)
+    · exact List.mem_append_right _ hx
+  have hok' : ElemsOK v.ps (A ++ B) := fun x hx => h.eok x (hsub x hx)
+  have hfit' : ∀ e ∈ A ++ B, esz v.ps e ≤ v.loc.stride := fun x hx => h.fits x (hsub x hx)
+  have hdrop := h.destruct_holds A.length (A.length + M.length) (by omega)
+  have hfront : ∀ k, k < A.length → (A ++ B).getD k [] = (A ++ M ++ B).getD k [] := by
+    intro k hk
+    rw [getD_append_left' A B k hk, List.append_assoc, getD_append_left' A (M ++ B) k hk]
+  have htail : ∀ k, (A ++ B).getD (A.length + k) [] = (A ++ M ++ B).getD (A.length + M.length + k) [] := by
+    intro k
+    rw [getD_append_right' A B k]
+    have := getD_append_right' (A ++ M) B k
+    simpa [List.length_append] using this.symm
+  -- after the destruction of the erased range
+  have h0 : Holds (v.destructRange A.length (A.length + M.length)) (A ++ B).length
+      (relocRec v.ps v.loc.stride (A ++ B) A.length M.length 0) := by
+    intro x
+    rw [hdrop x]
+    simp only [List.length_append, Nat.add_zero]
+    constructor
+    · rintro ⟨k, hk, hout, rfl⟩
+      rcases hout with hk1 | hk2
+      · exact ⟨k, by omega, by simp only [relocRec, fixRec, hk1, if_true, Nat.add_zero, hfront k hk1]⟩
+      · refine ⟨k - M.length, by omega, ?_⟩
+        have hnl : ¬ (k - M.length < A.length) := by omega
+        have e3 := htail (k - (A.length + M.length))
+        rw [show A.length + M.length + (k - (A.length + M.length)) = k by omega,
+            show A.length + (k - (A.length + M.length)) = k - M.length by omega] at e3
+        simp only [relocRec, fixRec, Nat.add_zero, hnl, if_false, e3, show k - M.length + M.length = k by omega]
+    · rintro ⟨q, hq, rfl⟩
+      by_cases hqa : q < A.length
+      · exact ⟨q, by omega, Or.inl hqa, by simp only [relocRec, fixRec, hqa, if_true, Nat.add_zero, hfront q hqa]⟩
+      · refine ⟨q + M.length, by omega, Or.inr (by omega), ?_⟩
+        have e3 := htail (q - A.length)
+        rw [show A.length + (q - A.length) = q by omega,
+            show A.length + M.length + (q - A.length) = q + M.length by omega] at e3
+        simp only [relocRec, fixRec, Nat.add_zero, hqa, if_false, e3]
+  rw [eraseRange_fix_elementwise v _ _ h.isFixed hnt (by omega) (by omega)]
+  have hfold := relocate_fold_fix v h.lok h.isFixed h.stride_dvd (A ++ B) hok' hfit' A.length M.length hMl
+    (v.loc.count - (A.length + M.length)) 0 { v with mem := v.destructRange A.length (A.length + M.length) }
+    (by simp only [List.length_append]; omega) rfl rfl h.clean h0
+  rw [← List.range_eq_range'] at hfold
+  obtain ⟨g1, g2, g3, g4⟩ := hfold
+  generalize (List.range (v.loc.count - (A.length + M.length))).foldl
+    (fun (w : Vec) q => w.relocateOne (A.length + q) (A.length + M.length + q))
+    { v with mem := v.destructRange A.length (A.length + M.length) } = w at g1 g2 g3 g4
+  have hfw : w.fixedLoc = true := by unfold Vec.fixedLoc; rw [g1]; exact h.isFixed
+  refine ⟨g1 ▸ h.lok, hfw, g1 ▸ hok', ?_, ?_, ?_, ?_, g3⟩
+  · simp only [Loc.resize, hfw, if_true, List.length_append]; omega
+  · simp only [Loc.resize, hfw, if_true, g1, g2]; exact h.stride_dvd
+  · simp only [Loc.resize, hfw, if_true, g1, g2]; exact hfit'
+  · simp only [Loc.resize, hfw, if_true, g1, g2]
+    refine g4.congr ?_
+    intro q hq
+    simp only [List.length_append] at hq
+    have : q < A.length + (0 + (v.loc.count - (A.length + M.length))) := by omega
+    simp only [relocRec, fixRec, this, if_true]
+
+/-- erase(first, last) on the stride locator for **all** value types -/
+theorem FixInv.eraseRange_all {v : Vec} {es : List Elem} (h : FixInv v es) (i j : Nat) (hij : i ≤ j) (hj : j ≤ es.length) :
+    FixInv (v.eraseRange i j) (es.take i ++ es.drop j) := by
+  cases ht : v.trivialReloc with
+  | true => exact h.eraseRange' ht i j hij hj
+  | false =>
+    by_cases hmove : j < es.length ∧ i < j
+    · obtain ⟨he, h1, h2⟩ := split_range es i j hij hj
+      have h' : FixInv v (es.take i ++ (es.drop i).take (j - i) ++ es.drop j) := by rw [← he]; exact h
+      have := FixInv.eraseRange_elementwise (es.take i) ((es.drop i).take (j - i)) (es.drop j) h' ht
+        (by intro hb; have : (es.drop j).length = 0 := by rw [hb]; rfl
+            simp at this; omega)
+        (by intro hm; rw [hm] at h2; simp at h2; omega)
+      rw [h1, h2, show i + (j - i) = j by omega] at this
+      exact this
+    · exact h.eraseRange'_gen i j hij hj (fun h1 h2 => absurd ⟨h1, h2⟩ hmove)
+
+/-- one step on the stride locator for **all** value types -/
+theorem FixInv.step_all {v : Vec} {es : List Elem} (h : FixInv v es) (junk : Nat → Nat) (op : VOp)
+    (hpre : op.PreFix v.ps v.loc.stride es) : FixInv (op.apply junk v) (op.spec es) := by
+  have hsz : v.size = es.length := by simp [Vec.size, h.isFixed, h.count_eq]
+  cases op with
+  | emplace e => exact h.emplaceBack e hpre.1.1 hpre.1.2 hpre.2
+  | pop =>
+    have hl : 0 < es.length := List.length_pos_iff.mpr hpre.1
+    simp only [VOp.apply, VOp.spec]
+    rw [popBack_eq_eraseRange_fix v h.isFixed (by rw [h.count_eq]; exact hl), h.count_eq]
+    have := h.eraseRange_all (es.length - 1) es.length (by omega) (Nat.le_refl _)
+    rw [List.drop_length, List.append_nil] at this
+    rw [List.dropLast_eq_take]; exact this
+  | erase i =>
+    simp only [VOp.apply, VOp.spec]
+    cases ht : v.trivialReloc with
+    | true => exact h.erase ht i hpre.1
+    | false =>
+      have hgoal := h.eraseRange_all i (i + 1) (by omega) hpre.1
+      by_cases hlast : i + 1 < v.loc.count
+      · rw [erase_fix_mid v i h.isFixed hlast]; exact hgoal
+      · rw [erase_last_eq_eraseRange v i ht (by rw [hsz]; rw [h.count_eq] at hlast; have := hpre.1; simp only [VOp.Pre] at this; omega)]
+        exact hgoal
+  | eraseRange i j => exact h.eraseRange_all i j hpre.1.1 hpre.1.2
+  | clear =>
+    simp only [VOp.apply, VOp.spec]
+    rw [clear_eq_eraseRange_fix v h.isFixed, h.count_eq]
+    have := h.eraseRange_all 0 es.length (Nat.zero_le _) (Nat.le_refl _)
+    simpa using this
+  | reserve n b => exact h.reserve n b junk
+
+/-- the stride never changes, whatever the relocation path -/
+theorem apply_stride_all {v : Vec} {es : List Elem} (h : FixInv v es) (junk : Nat → Nat) (op : VOp) (hpre : op.PreFix v.ps v.loc.stride es) :
+    (op.apply junk v).loc.stride = v.loc.stride := by
+  cases ht : v.trivialReloc with
+  | true => exact apply_stride h ht junk op
+  | false =>
+    have hf' : isFixedOrPlain v.ps = true := h.isFixed
+    cases op with
+    | emplace e => simp only [VOp.apply, Vec.emplaceBack, Vec.fixedLoc, hf', if_true]
+    | pop => simp only [VOp.apply, Vec.popBack, Vec.fixedLoc, hf', Loc.resize, if_true]
+    | erase i =>
+      simp only [VOp.apply, Vec.erase]
+      have := (C16aux_moveForward_loc { v with mem := v.destructRange i (i + 1) } (i + 1) i h.isFixed)
+      simp only [Loc.resize]; split <;> simp only [this]
+    | eraseRange i j =>
+      simp only [VOp.apply, Vec.eraseRange]
+      split
+      · have := (C16aux_moveForward_loc { v with mem := v.destructRange i j } j i h.isFixed)
+        simp only [Loc.resize]; split <;> simp only [this]
+      · simp only [Loc.resize]; split <;> rfl
+    | clear => simp only [VOp.apply, Vec.clear, Vec.fixedLoc, hf', Loc.resize, if_true]
+    | reserve n b => simp only [VOp.apply, Vec.reserve, Vec.fixedLoc, hf', if_true]; split <;> rfl
+
+/-- **every history on the stride locator, all value types** -/
+theorem FixInv.history_all {v : Vec} {es : List Elem} (h : FixInv v es) (junk : Nat → Nat)
+    (ops : List VOp) (hv : ValidFix v.ps v.loc.stride es ops) :
+    FixInv (ops.foldl (VOp.apply junk) v) (ops.foldl VOp.spec es) := by
+  induction ops generalizing v es with
+  | nil => exact h
+  | cons op ops ih =>
+    simp only [List.foldl_cons]
+    have hps := apply_ps junk v op
+    have hst := apply_stride_all h junk op hv.1
+    apply ih (h.step_all junk op hv.1)
+    rw [hps, hst]; exact hv.2
+
 end Cntgs
